@@ -61,6 +61,11 @@ def alphabet():
         assign("du", CALL("<builtin>dot_product", [V(U), V(U)])),
         assign("eu", CALL("<builtin>elementwise_abs", [V(U)])),
         assign("lu", CALL("<builtin>len", [V(U)])),
+        # neutral and absorbing constants (zero coefficients as Runge-Kutta tableaux produce them)
+        assign("zy", S(P(C(0), V("ra")), V("<dt>"))),
+        assign("zz", S(P(C(0), V("c")), V("<t>"))),
+        assign("zw", S(V("<t>"), ["cx", 0, 0])),
+        assign("zu", S(P(C(0), V(U)), V("x"))),
         # keyword arguments written in another order than the signature (kinds are declared per argument)
         assign("trk", CALL("<builtin>transpose", [], [["a_cols", C(1)], ["a", V("ca")]])),
         assign("dk", CALL("<builtin>dot_product", [], [["y", V("ca")], ["x", V("ra")]])),
@@ -237,7 +242,7 @@ def run(chk):
     # defines real and complex scalars and arrays
     prelude = [alpha[0], alpha[1], alpha[5], alpha[6], assign("ca", P(V("ra"), V("c")))]
     for st in alpha:
-        if st["op"] == "assign" and st["rhs"][0] == "call" and st["rhs"][3]:
+        if st["op"] == "assign" and ((st["rhs"][0] == "call" and st["rhs"][3]) or st["lhs"] in ("zy", "zz", "zw", "zu")):
             cases.append(observe(prelude + [st]))
     # a persistent variable refined in ONE phase and read in the other (both insertion orders; run: zeta, alpha, zeta)
     for reader_first in (True, False):
